@@ -7,6 +7,7 @@ import (
 	"os/exec"
 	"sort"
 	"strings"
+	"sync"
 	"time"
 
 	formula "github.com/aundis/formula"
@@ -442,4 +443,58 @@ func c09Post(p *eng.Parent) {
 	}
 	p.Extra["leg_b"] = rep
 	p.Extra["leg_b_note"] = "leg B samples schedules under the race detector; it is a complement, the exhaustive claim is leg A's preemption bound"
+}
+
+// C09DeepBarrier evaluates one shared, deeply nested formula from g goroutines that all meet
+// at a barrier host function at the innermost nesting level, then compares every result with
+// the sequential one. Used by leg B (free-running).
+func C09DeepBarrier(g, depth int) (int, string) {
+	src := strings.Repeat("(", depth) + "hold() + 1" + strings.Repeat(")", depth) + " * 2 + len(s)"
+	p := safeParse([]byte(src))
+	if p.panicked || p.err != nil {
+		return 0, fmt.Sprintf("deep formula does not parse: %v %s", p.err, p.panicMsg)
+	}
+	eval := func(hold func() (float64, error)) string {
+		r := formula.NewRunner()
+		d := c08Data()
+		d["hold"] = hold
+		r.SetThis(d)
+		o := safeResolve(r, bg, p.src.Expression)
+		switch {
+		case o.panicked:
+			return "panic:" + o.panicMsg
+		case o.err != nil:
+			return "error:" + o.err.Error()
+		}
+		return showExact(o.val)
+	}
+	seq := eval(func() (float64, error) { return 41, nil })
+	var wg sync.WaitGroup
+	var arrived sync.WaitGroup
+	arrived.Add(g)
+	res := make([]string, g)
+	for i := 0; i < g; i++ {
+		i := i
+		wg.Add(1)
+		go func() {
+			defer wg.Done()
+			reached := false
+			res[i] = eval(func() (float64, error) {
+				reached = true
+				arrived.Done()
+				arrived.Wait() // everybody is at the innermost level now
+				return 41, nil
+			})
+			if !reached {
+				arrived.Done() // an evaluation that failed before the barrier must not hold the others up
+			}
+		}()
+	}
+	wg.Wait()
+	for i, r := range res {
+		if r != seq {
+			return g, fmt.Sprintf("deep shared formula (depth %d, %d goroutines inside at once): goroutine %d observed %s, sequentially %s", depth, g, i, tail200(r), tail200(seq))
+		}
+	}
+	return g, ""
 }
